@@ -448,7 +448,7 @@ func TestC35(t *testing.T) {
 	r.Extra("rule", "generated workspaces of 3–8 files in a mutable source.Map; histories of 3–10 edits drawn from {add field / change field type / add enum value in an imported file, rename a message importers use, break / remove / repair an import, delete an imported file, add a file that was imported but missing, touch without change, re-run without edit, introduce / remove a cross-file duplicate symbol, introduce / repair a syntax error or duplicate tag}. "+
 		"After every edit: evict queries.File{Opener,Path,ReportError:false|true} for the touched paths, re-run queries.Link on the long-lived executor+session, compare descriptors (fdp.DescriptorProtoBytes per requested file) and diagnostics (level, tag, message, file, primary span, notes, help, debug, every annotation, rendered text) with a fresh executor+session+opener on the same files. one evaluation = one compared step; distinct = distinct (file contents, step); non-trivial = the step touched at least one path and the batch result has a descriptor or a diagnostic")
 	r.Extra("assumptions", []string{
-		"the batch side is itself deterministic for the compared workspace (checked by C36); a mismatch that is only an order difference among diagnostics tying on Canonicalize's sort keys is reported under its own signature",
+		"fresh (batch) runs are NOT deterministic on this tree (C36 decides that): an order difference confined to groups of diagnostics that tie on Canonicalize's observable sort keys is not a mismatch, and any other mismatch is reported only if none of 200 further fresh executors at the same parallelism reproduces the incremental result (counted in classes 'mismatch-reproduced-by-another-fresh-run')",
 		"the Workspace object of queries.Link is reused across steps (its key is compared by identity), as a long-lived client would",
 	})
 	ctx := context.Background()
